@@ -673,7 +673,9 @@ func isPlainValue(v value.Value) bool {
 
 func genUpdateObject(r *gen.Rng, c *typCtx, st *updState, rootRef sgen.Ref, tr schema.TypeRef, pool []interface{}) interface{} {
 	liveU := gen.DeepCopy(normalize(st.live.AsValue().Unstructured()))
-	switch r.Intn(6) {
+	switch r.Intn(7) {
+	case 6: // live with an empty list or map put into a declared field of some struct
+		return emptyMember(r, c, tr, liveU, 3)
 	case 5: // live with a twin of some list item whose key field is an explicit null
 		return nullKeyTwin(r, liveU)
 	case 0: // a fresh object
@@ -711,6 +713,51 @@ func genUpdateObject(r *gen.Rng, c *typCtx, st *updState, rootRef sgen.Ref, tr s
 
 // normalize converts map[interface{}]interface{} (never produced here) and typed nils; identity otherwise.
 func normalize(v interface{}) interface{} { return v }
+
+// emptyMember: somewhere in the object (type directed) a declared list / map field of a struct is set to
+// an empty list / map: a node that field sets do not show but that an updater comes to own.
+func emptyMember(r *gen.Rng, c *typCtx, tr schema.TypeRef, v interface{}, depth int) interface{} {
+	m, ok := v.(map[string]interface{})
+	if !ok || depth <= 0 {
+		return v
+	}
+	atom, ok := c.sc.Resolve(tr)
+	if !ok || atom.Map == nil || len(atom.Map.Fields) == 0 {
+		return v
+	}
+	out := map[string]interface{}{}
+	for k, x := range m {
+		out[k] = x
+	}
+	// descend into a struct-valued field half of the time
+	if r.Bool() {
+		for _, f := range atom.Map.Fields {
+			if sub, isMap := m[f.Name].(map[string]interface{}); isMap && len(sub) > 0 {
+				if fa, ok := c.sc.Resolve(f.Type); ok && fa.Map != nil && len(fa.Map.Fields) > 0 && fa.Map.ElementRelationship != schema.Atomic {
+					out[f.Name] = emptyMember(r, c, f.Type, sub, depth-1)
+					return out
+				}
+			}
+		}
+	}
+	var cands []int
+	for i, f := range atom.Map.Fields {
+		if fa, ok := c.sc.Resolve(f.Type); ok && (fa.List != nil || fa.Map != nil) && fa.Scalar == nil {
+			cands = append(cands, i)
+		}
+	}
+	if len(cands) == 0 {
+		return out
+	}
+	f := atom.Map.Fields[gen.Pick(r, cands)]
+	fa, _ := c.sc.Resolve(f.Type)
+	if fa.List != nil && (fa.Map == nil || r.Bool()) {
+		out[f.Name] = []interface{}{}
+	} else {
+		out[f.Name] = map[string]interface{}{}
+	}
+	return out
+}
 
 // nullKeyTwin: somewhere in the object a list of maps gets a copy of one of its items in which one of
 // the (possible) key fields is an explicit null: another item than the original, also when the
@@ -781,10 +828,52 @@ func addDuplicate(r *gen.Rng, v interface{}) interface{} {
 			return t
 		}
 		out := append([]interface{}{}, t...)
-		out = append(out, gen.DeepCopy(t[r.Intn(len(t))]))
+		i := r.Intn(len(t))
+		dup := gen.DeepCopy(t[i])
+		switch r.Intn(4) {
+		case 0:
+			// a third copy, with another item behind it: [.., x, x', x'', y]
+			out = append(out, dup, gen.DeepCopy(t[i]))
+			if len(t) > 1 {
+				out = append(out, gen.DeepCopy(t[(i+1)%len(t)]))
+			}
+		case 1:
+			// the copy in front, differing in a leaf (a stale twin of the same identity)
+			out = append([]interface{}{tweakLeafKeepKeys(r, dup)}, out...)
+		default:
+			out = append(out, dup)
+		}
 		return out
 	}
 	return v
+}
+
+// tweakLeafKeepKeys changes a non-key scalar of a map item (fields named name / id / port / proto / key are
+// left alone, so that the identity stays).
+func tweakLeafKeepKeys(r *gen.Rng, v interface{}) interface{} {
+	m, ok := v.(map[string]interface{})
+	if !ok {
+		return v
+	}
+	for _, k := range []string{"value", "x", "y", "v", "known"} {
+		if x, has := m[k]; has {
+			switch t := x.(type) {
+			case int64:
+				m[k] = t + 5
+				return m
+			case string:
+				m[k] = t + "-stale"
+				return m
+			case bool:
+				m[k] = !t
+				return m
+			case float64:
+				m[k] = t + 5
+				return m
+			}
+		}
+	}
+	return m
 }
 
 // emitSync hands the implementation's state to the model: after a step whose outcome depends on Go's
@@ -1210,6 +1299,60 @@ func judgeApply(o *Out, op string, c *typCtx, ig ignoreCfg, up *merge.Updater, s
 				}
 			}
 		})
+	}
+	// C02, independently of field sets and Compare: a leaf-like node (scalar, null, empty list or map) that
+	// another manager owns, that the configuration does not touch (no configuration path at, above or
+	// beneath it) and that does not lie beneath something the applier itself applied before (reading R2:
+	// what it abandons may take sub-items along), keeps its value
+	if plain && ig.kind == "none" && orderDependentVersions(pre, mgr, ver) < 2 {
+		lu, ru := st.live.AsValue().Unstructured(), result.AsValue().Unstructured()
+		var lastSet *fieldpath.Set
+		if last, had := pre[mgr]; had {
+			lastSet = last.Set()
+		}
+		for m, vs := range pre {
+			if m == mgr {
+				continue
+			}
+			m := m
+			vs.Set().Iterate(func(p fieldpath.Path) {
+				a, ok := nodeAt(c.sc, cfg.TypeRef(), lu, p)
+				if !ok {
+					return
+				}
+				switch t := a.(type) {
+				case map[string]interface{}:
+					if len(t) != 0 {
+						return
+					}
+				case []interface{}:
+					if len(t) != 0 {
+						return
+					}
+				}
+				if anyBeneath(p, fsCfg) || beneathAny(p, fsCfg) || fsCfg.Has(p) {
+					return
+				}
+				if lastSet != nil {
+					for i := 1; i < len(p); i++ {
+						if lastSet.Has(p[:i]) {
+							return
+						}
+					}
+				}
+				b, ok2 := nodeAt(c.sc, cfg.TypeRef(), ru, p)
+				if ok2 && vx.CanonValue(value.NewValueInterface(a)) == vx.CanonValue(value.NewValueInterface(b)) {
+					return
+				}
+				sig := "others-owned-node-kept "
+				if l, isList := a.([]interface{}); isList && len(l) == 0 {
+					// finding D17: an empty list is invisible to field sets, so the add-back of dangling items
+					// does not see that its parent still has content
+					sig = "others-owned-node-kept/D17-empty-list-invisible "
+				}
+				o.Fail("C02", "others-owned-node-kept", m+" owns "+p.String()+" = "+vx.CanonValue(value.NewValueInterface(a))+", gone or changed after the apply", sig+op, op)
+			})
+		}
 	}
 	if plain {
 		ex := result.ExtractItems(fsCfg.Leaves())
